@@ -310,6 +310,16 @@ class Gen:
         n = rng.randint(1, 4)
         items, sx, nf = [], [], []
         used = set()
+        if getattr(self, "cur_sort", None) and rng.random() < 0.7:
+            # keep the columns the sort in effect is keyed on, so that later transforms can still rely on that order
+            names = [c.name for c in frame]
+            for n_, _ in self.cur_sort:
+                if n_ in names and n_ not in used:
+                    i = names.index(n_)
+                    used.add(n_)
+                    items.append(frame[i].ref)
+                    sx.append(f"( col {i} )")
+                    nf.append(frame[i].copy(ref=frame[i].name))
         for _ in range(n):
             if rng.random() < 0.55:
                 i = rng.randrange(len(frame))
